@@ -2,8 +2,10 @@
 # usage: run_all.sh [quick|thorough] [seed]   - runs every registered check once, prints one summary line per check
 TIER=${1:-quick}; SEED=${2:-1}
 cd "$(dirname "$0")/.."
+BAD=0
 for i in 01 02 03 04 05 06 07 08 09 10 11 12 13 14 15 16 17 18 19 20; do
   OUT=$(VERIF_SEED=$SEED ./check C$i $TIER 2>&1); RC=$?
   echo "rc=$RC $(echo "$OUT" | grep -E "^C$i tier=" | tail -1)"
-  [ $RC -ne 0 ] && echo "$OUT" | grep -E "VIOLATION|HARNESS|signature" | head -6
+  if [ $RC -ne 0 ]; then BAD=1; echo "$OUT" | grep -E "VIOLATION|HARNESS|signature" | head -6; fi
 done
+exit $BAD
